@@ -272,6 +272,14 @@ func checkCallbackScan(c *Ctx, r *Report, check *ssa.Function) {
 		}
 	}
 	if site == nil {
+		// the reader goroutine written as a method of the package (`go d.readForCallbacks(...)`)
+		for _, bc := range callsThroughHelpers(hc, check, 2) {
+			if call, ok := bc.Call.(*ssa.Call); ok {
+				site, worker = call, bc.Fn
+			}
+		}
+	}
+	if site == nil {
 		r.Unk(rule, "handleCallbacks scan", c.Pos(hc.Pos()), "no call of (*Callback).check found")
 		return
 	}
